@@ -169,7 +169,7 @@ def main(tier, seed):
                          ["Model/Ticker.v", "Oracle/TickerOracle.v", "Model/Sim.v", "Oracle/SimCheck.v", "Oracle/SimOracle.v",
                           "Proofs/TickerP.v", "Model/NSim.v", "Proofs/LatestP.v", "Proofs/EqvP.v", "Proofs/InlineP.v", "Proofs/InlineLoopP.v",
                           "Proofs/InlineScopeP.v", "Proofs/InlineLatestP.v", "Proofs/WakeWfP.v", "Proofs/ExtentP.v", "Proofs/Confluence2P.v",
-                          "Proofs/ScheduleP.v", "Proofs/SimTraceP.v", "Model/SimTime.v", "Model/Inline.v", "Proofs/ParDevP.v", "Props/C08.v"],
+                          "Proofs/ScheduleP.v", "Proofs/SimTraceP.v", "Model/SimTime.v", "Model/Inline.v", "Proofs/ParDevP.v", "Proofs/FuelP.v", "Props/C08.v"],
                          "schedule independence", extra=net_part)
 
 
